@@ -421,21 +421,32 @@ theorem nsN_good (e : CEnv) (n : Nat) : GoodPrefix e ('n' :: 's' :: natStr n) :=
     · have := (natStr_spec n).1 ':' h
       revert this; decide
 
+theorem loop_good (e : CEnv) (hk : Str → Bool) (fuel k : Nat) : GoodPrefix e (generatePrefix.loop hk fuel k) := by
+  induction fuel generalizing k with
+  | zero => simp only [generatePrefix.loop]; exact nsN_good e k
+  | succ f ih =>
+    simp only [generatePrefix.loop]
+    split
+    · exact ih (k + 1)
+    · exact nsN_good e k
+
 theorem generatePrefix_good (e : CEnv) (u : Str) (m : NsMap) : GoodPrefix e (generatePrefix u m).1 := by
   unfold generatePrefix
   cases hs : (if u.isEmpty then none else standardPrefix u) with
-  | none => simp only; exact nsN_good e m.length
+  | none => simp only; exact loop_good e _ _ _
   | some p =>
     simp only
     have : standardPrefix u = some p := by
       by_cases hu : u.isEmpty
       · simp [hu] at hs
       · simpa [hu] using hs
-    exact standardPrefix_good e u p this
+    split
+    · exact loop_good e _ _ _
+    · exact standardPrefix_good e u p this
 
 theorem generatePrefix_map (u : Str) (m : NsMap) :
     (generatePrefix u m).2 = m.set (some (generatePrefix u m).1) u := by
   unfold generatePrefix
-  cases (if u.isEmpty then none else standardPrefix u) <;> rfl
+  cases (if u.isEmpty then none else standardPrefix u) <;> simp only <;> (try split) <;> rfl
 
 end Xs.Conv
